@@ -2,4 +2,4 @@
 in lock-step with M1, judged by the oracles of harness/simengine/monitors.py)."""
 from ..e1 import E1Part
 
-PROP = E1Part("C05", [("graceful",3),("timeouts",1),("leak",1),("respawn",1),("cancelshut",2)], ["C05","C01"], ["LokyModel.Props.C05"], quick=1200, thorough=40000, starve=0)
+PROP = E1Part("C05", [("graceful",3),("timeouts",1),("leak",1),("respawn",1),("cancelshut",2)], ["C05","C01"], ["LokyModel.Props.C05", "LokyModel.Props.C05Live"], quick=1200, thorough=40000, starve=0)
